@@ -164,12 +164,38 @@ func discharge(u *Universe, o *Obligation, dir string, timeoutS int, confirm boo
 		}
 		var last solveResult
 		got := false
+		confirmedInRace := false
+		base := func(name string) string {
+			if i := strings.Index(name, "("); i >= 0 {
+				return name[:i]
+			}
+			return name
+		}
 		for i := 0; i < n; i++ {
 			rr := <-ch
 			if definite(rr) {
-				r = rr
-				got = true
-				break
+				if !got {
+					r = rr
+					got = true
+					if !confirm || rr.result == "sat" {
+						break
+					}
+					continue
+				}
+				// thorough tier: a second, different solver that also answers unsat (on the exact encoding or on a
+				// weakening of it) confirms the first one; the race goes on until that happens or everybody has answered
+				if rr.result == "unsat" && base(rr.solver) != base(r.solver) {
+					r.solver += "+" + rr.solver
+					confirmedInRace = true
+					break
+				}
+				if rr.result == "sat" && r.result == "unsat" {
+					r.result = "error"
+					r.out = "solvers disagree: " + r.solver + " unsat, " + rr.solver + " sat"
+					confirmedInRace = true
+					break
+				}
+				continue
 			}
 			if last.result == "" || last.result == "error" || (rr.result == "unknown" && last.result == "timeout") {
 				last = rr
@@ -178,6 +204,9 @@ func discharge(u *Universe, o *Obligation, dir string, timeoutS int, confirm boo
 		cancel()
 		if !got {
 			r = last
+		}
+		if confirmedInRace {
+			confirm = false
 		}
 	}
 	if confirm && r.result == "unsat" {
